@@ -121,6 +121,14 @@ def verify(ix, model, out, tag):
             got = _keys(s, s.search(wq.Phrase("t", [w1, w2]), limit=None).docs())
             if got != exp:
                 out.fail("c07.phrase_search", [tag, w1, w2, got, exp])
+        # negation of a compound (its matcher is rebuilt while the collector runs): deleted documents stay out
+        for w1, w2 in (("a", "zzz"), ("abc", "ba")):
+            nexp = sorted(d["k"] for d in docs if w1 not in (d.get("t") or []) and w2 not in (d.get("t") or []))
+            nq = wq.Not(wq.Or([wq.Term("t", w1), wq.Term("t", w2)]))
+            for name, res in (("all", s.search(nq, limit=None)), ("limit", s.search(nq, limit=max(1, len(nexp))))):
+                got = _keys(s, res.docs())
+                if got != nexp:
+                    out.fail("c07.not_compound:" + name, [tag, w1, w2, got, nexp])
         got = _keys(s, s.docs_for_query(wq.Every("t")))
         exp = sorted(d["k"] for d in docs if d.get("t"))
         if got != exp:
@@ -239,7 +247,8 @@ def strategy_schema(tier):
     extra = st.fixed_dictionaries({"via": st.sampled_from(["plain", "with", "with"]),
                                    "schema_op": st.sampled_from([None, None, "add_x", "remove_w", "remove_x"]),
                                    # a second schema change made by the same writer
-                                   "second_op": st.sampled_from([None, None, "add_y", "remove_w", "remove_d"])})
+                                   "second_op": st.sampled_from([None, None, "add_y", "remove_w", "remove_d"]),
+                                   "base_exc": st.booleans()})
     return st.fixed_dictionaries({
         "hist": gen.history_s(max_txs=6, min_txs=2, max_docs=5, allow_cancel=True,
                               schema_s=st.fixed_dictionaries({"t_vector": st.booleans(), "g_sortable": st.booleans()})),
@@ -252,11 +261,15 @@ class _Left(Exception):
     pass
 
 
+class _LeftBase(BaseException):
+    """what KeyboardInterrupt, SystemExit and GeneratorExit are: not an Exception, but it leaves the block all the same"""
+
+
 class ProxyWriter(object):
     """Delegates to a real writer; ends the transaction the way a `with ix.writer() as w:` block does when asked to."""
 
-    def __init__(self, real, via, with_x):
-        self._real, self._via, self._with_x = real, via, with_x
+    def __init__(self, real, via, with_x, base_exc=False):
+        self._real, self._via, self._with_x, self._base_exc = real, via, with_x, base_exc
         self.added_with_x = []
 
     def __getattr__(self, name):
@@ -289,8 +302,9 @@ class ProxyWriter(object):
     def cancel(self):
         if self._via != "with":
             return self._real.cancel()
-        e = _Left("exception inside the with-block")
-        return self._real.__exit__(_Left, e, None)
+        cls = _LeftBase if self._base_exc else _Left
+        e = cls("exception inside the with-block")
+        return self._real.__exit__(cls, e, None)
 
 
 def run_schema(case, out):
@@ -349,7 +363,7 @@ def run_schema(case, out):
             if not new_w or not new_d:
                 tx2["ops"] = [[o[0], dict(o[1], w=(o[1].get("w") if new_w else []), d=(o[1].get("d") if new_d else None))]
                               if o[0] in ("add", "upd") else o for o in tx["ops"]]
-            pw = ProxyWriter(w, ex["via"], new_x)
+            pw = ProxyWriter(w, ex["via"], new_x, base_exc=ex.get("base_exc", False))
             committed = corpus.apply_tx(ix, model, tx2, ref_eval, to_whoosh, writer=pw)
             skeleton.append([[o[0] for o in tx["ops"]], tx.get("end"), ex["via"], op])
             if committed:
